@@ -45,6 +45,9 @@ type pipe struct {
 	closed chan struct{} // closed by Close
 	once   sync.Once
 	block  bool // Send blocks until ctx ends (stalled link)
+	// flushfail: the frame leaves (the server sees it), Send then waits for wrel and reports a write error
+	flushfail bool
+	wrel      chan struct{}
 }
 
 func (p *pipe) Send(ctx context.Context, b *bin.Buffer) error {
@@ -63,7 +66,15 @@ func (p *pipe) Send(ctx context.Context, b *bin.Buffer) error {
 	}
 	p.mu.Lock()
 	p.sent = append(p.sent, append([]byte(nil), b.Buf...))
+	ff, rel := p.flushfail, p.wrel
 	p.mu.Unlock()
+	if ff {
+		select {
+		case <-rel:
+		case <-p.closed:
+		}
+		return errors.New("write failed after flush")
+	}
 	return nil
 }
 
@@ -284,6 +295,8 @@ func errClass(err error) string {
 		return "ok"
 	case strings.Contains(err.Error(), "pong missed"):
 		return "pongmissed"
+	case strings.Contains(err.Error(), "write failed after flush"):
+		return "wfail"
 	case errors.Is(err, context.Canceled), errors.Is(err, context.DeadlineExceeded):
 		return "ctx"
 	case errors.Is(err, rpc.ErrEngineClosed):
@@ -337,7 +350,14 @@ func (w *world) clientPing(k int) {
 	w.cancels[fmt.Sprint("p", k)] = cancel
 	w.pendingP = append(w.pendingP, k)
 	w.mu.Unlock()
-	w.out.Emit(tr.M{"ev": "ping", "k": k})
+	w.p.mu.Lock()
+	wf := w.p.flushfail
+	w.p.mu.Unlock()
+	if wf {
+		w.out.Emit(tr.M{"ev": "ping", "k": k, "wfail": true})
+	} else {
+		w.out.Emit(tr.M{"ev": "ping", "k": k})
+	}
 	go func() {
 		w.mu.Lock()
 		w.gidK[curGID()] = k
@@ -712,6 +732,15 @@ func (w *world) step(s tr.M) {
 		if c != nil {
 			c()
 		}
+	case "wfail":
+		w.p.mu.Lock()
+		if tr.Bool(s["on"]) {
+			w.p.flushfail, w.p.wrel = true, make(chan struct{})
+		} else if w.p.flushfail {
+			w.p.flushfail = false
+			close(w.p.wrel)
+		}
+		w.p.mu.Unlock()
 	case "gateid":
 		w.mu.Lock()
 		w.gateID = tr.Bool(s["on"])
